@@ -158,6 +158,9 @@ def handle (line : String) : String × String :=
   | "picker" :: rest => pickerHandle rest
   | ["search", mb, jobs] => searchHandle mb jobs
   | ["verify", fen, played, best, infos] => verifyHandle fen played best infos
+  | ["ctl", cmds] => ctlHandle cmds
+  | ["game", fen, moves] => gameHandle fen moves
+  | ["game", fen] => gameHandle fen ""
   | _ => bad
 
 partial def serveLoop (h : IO.FS.Stream) (out : IO.FS.Stream) : IO Unit := do
@@ -354,6 +357,7 @@ def main (args : List String) : IO UInt32 := do
   | ["gen", "templates", seed, n] => genTemplates seed.toNat! n.toNat!; return 0
   | ["gen", "draws", seed, n, roots] => genDraws seed.toNat! n.toNat! roots; return 0
   | ["gen", "fen", seed, n, roots] => genFen seed.toNat! n.toNat! roots; return 0
+  | ["gen", "games", seed, n, roots] => genGames seed.toNat! n.toNat! roots; return 0
   | ["gen", "tt", seed, n, big] => genTT seed.toNat! n.toNat! (big == "1"); return 0
   | ["gen", "limits", seed, n] => genLimits seed.toNat! n.toNat!; return 0
   | ["gen", "eval", seed, n, roots] => genEval seed.toNat! n.toNat! roots; return 0
